@@ -83,6 +83,16 @@ def ref_schemas(d):
             if d == 7 and ("then" in S or "else" in S) and "if" not in S:
                 S = dict([("if", {"$ref": OTHER + "#/d"})] + list(S.items()))
             out.append(S)
+    # same-document references only (scope-neutral): every ordered pair of such slots
+    local = [(k, v) for k, v in slots if OTHER not in json.dumps(v) and "#/definitions/o" not in json.dumps(v)]
+    LOCAL_DEFS = {"y": {"type": "string"}, "z": {"type": "object", "required": ["q"]}}
+    for k1, v1 in local:
+        for k2, v2 in local:
+            if k1 != k2 and not ({k1, k2} <= {"then", "else"}):
+                S = {k1: v1, k2: v2, "definitions": LOCAL_DEFS}
+                if d == 7 and ("then" in S or "else" in S) and "if" not in S:
+                    S = dict([("if", {"$ref": "#/definitions/y"})] + list(S.items()))
+                out.append(S)
     # three siblings: a probe that abandons its iteration between two keywords that resolve local references
     probes = [s for s in slots if s[0] in ("not", "disallow", "contains", "if", "oneOf", "anyOf")]
     users = [s for s in slots if s[0] in ("properties", "items", "additionalProperties", "allOf", "extends")]
@@ -128,6 +138,39 @@ def ref_check(d, S, x):
     return len(errors), None
 
 
+def nested_iteration_problem(d, S, x):
+    """While one error iterator of a validator is suspended after its first error, a second, complete iteration
+    over the SAME validator and the SAME instance object (what a caller does who inspects one error and asks for
+    the full list, or a keyword that validates re-entrantly) reports everything, and so does the first one."""
+    if OTHER in json.dumps(S):
+        # a suspended iterator inside a reference into ANOTHER document legitimately holds that document's scope on
+        # the shared resolver (C07 words exactly this exception); only same-document references are scope-neutral
+        return None
+    v = ref_validator(d, S)
+    try:
+        full = sorted((_e1.ident(e) for e in ref_validator(d, S).iter_errors(x)), key=repr)
+    except Exception:
+        return None
+    if not full:
+        return None
+    try:
+        outer = v.iter_errors(x)
+        first = next(outer, None)
+        inner = sorted((_e1.ident(e) for e in v.iter_errors(x)), key=repr)
+        probe = v.is_valid(x)
+        rest = list(outer)
+        got_outer = sorted((_e1.ident(e) for e in ([first] if first is not None else []) + rest), key=repr)
+    except Exception as e:
+        return ("nested-iteration-raised", type(e).__name__, None)
+    if inner != full:
+        return ("nested-iteration", "inner", {"inner": inner, "alone": full})
+    if got_outer != full:
+        return ("nested-iteration", "outer", {"outer": got_outer, "alone": full})
+    if probe is not False:
+        return ("nested-iteration", "is_valid-inside", {"is_valid": probe})
+    return None
+
+
 def run_refs(unit, ctx):
     d, _, shard, n = unit
     lst = ref_schemas(d)
@@ -141,6 +184,8 @@ def run_refs(unit, ctx):
         for x in REF_INSTANCES:
             ev += 1
             cnt, prob = ref_check(d, S, x)
+            if prob is None and cnt:
+                prob = nested_iteration_problem(d, S, x)
             if cnt:
                 nt += 1
             key = "ref-errors=%d" % min(cnt, 6)
@@ -173,7 +218,7 @@ def plan(ctx):
                  "SHARED VALIDATOR: every single and sibling group x the pair universe through ONE long-lived validator "
                  "object that gets a new copy of the schema per call, vs. a validator built for the schema.  REFERENCES: every ordered pair of keyword slots (and probe-between-two-users triples) whose "
                  "subschemas are $ref's into the same document and into a store document (same pointers, other "
-                 "meaning) x 12 instances, decomposition half only.  G(draft) x U as in C01 (singles, all ordered pairs, sibling groups, nested); one "
+                 "meaning) x 12 instances, decomposition half, and a complete iteration nested inside a suspended one on the same validator and instance object.  G(draft) x U as in C01 (singles, all ordered pairs, sibling groups, nested); one "
                  "list(iter_errors) per case feeds (a) the per-keyword decomposition against the keyword alone "
                  "with its consulted siblings and (b) the location-multiset comparison with the reference "
                  "evaluator; cases are distinct by construction; non-trivial = the instance has at least one "
@@ -460,6 +505,8 @@ def replay(case, ctx):
         return {"reproduced": bad is not None, "first": bad}
     if case.get("refs"):
         n, prob = ref_check(d, S, x)
+        if prob is None:
+            prob = nested_iteration_problem(d, S, x)
         return {"reproduced": prob is not None, "errors": n, "problem": prob}
     if case.get("purity"):
         k1, k2 = json.dumps(S), json.dumps(x)
